@@ -183,7 +183,7 @@ def phonon_file_text(ds, title="synthetic"):
     return "\n".join(L) + "\n"
 
 
-def static_file_text(ds, columns=None, names=None, rows=None, scale=1.0, fmt="%.10f", lattice_header=" lattice_a lattice_b lattice_c"):
+def static_file_text(ds, columns=None, names=None, rows=None, scale=1.0, fmt="%.10f", lattice_header=" lattice_a lattice_b lattice_c", lattice_extra=""):
     cols = columns or list(ds["supplied"])
     nv = len(ds["vols"])
     rows = list(range(nv)) if rows is None else rows
@@ -195,7 +195,7 @@ def static_file_text(ds, columns=None, names=None, rows=None, scale=1.0, fmt="%.
     if ds["lattice"] is not None:
         L.append(lattice_header)
         for i in rows:
-            L.append(" ".join(f"{a:.15f}" for a in ds["lattice"][i]))
+            L.append(" ".join(f"{a:.15f}" for a in ds["lattice"][i]) + lattice_extra)
     return "\n".join(L) + "\n"
 
 
